@@ -25,6 +25,9 @@ HIST = {
     'C07': dict(quick=700, thorough=9000, nops=9, nops_thorough=14),
     'C08': dict(quick=700, thorough=9000, nops=10, nops_thorough=16),
     'C09': dict(quick=700, thorough=9000, nops=12, nops_thorough=16),
+    'C10': dict(quick=900, thorough=12000, nops=14, nops_thorough=18, alpha='abA \t\n-', start=2),
+    'C11': dict(quick=900, thorough=12000, nops=12, nops_thorough=16, alpha='aabbbA \t\n-', start=1),
+    'C12': dict(quick=700, thorough=9000, nops=9, nops_thorough=12, start=1),
     'C16': dict(quick=700, thorough=9000, nops=8, nops_thorough=12),
     'C17': dict(quick=700, thorough=9000, nops=10, nops_thorough=14),
 }
@@ -148,7 +151,7 @@ def check_history(prop, tier, seed):
     cfg = HIST[prop]
     design = design_runs(prop, tier)
     nops = cfg['nops_thorough'] if tier == 'thorough' else cfg['nops']
-    camp = campaign.run_campaign('history', cfg[tier], seed, profile=prop, nops=nops,
+    camp = campaign.run_campaign('history', cfg[tier], seed, profile=prop, nops=nops, alpha=cfg.get('alpha'),
                                  maxlen=12 if tier == 'thorough' else 8,
                                  odd=0.05 if prop in ('C09', 'C08') else 0.0)
     return report(prop, tier, seed, t0, camp, design,
@@ -262,9 +265,10 @@ def check_c19(prop, tier, seed):
     maxlen = 6 if tier == 'thorough' else 5
     camp, total = enum_campaign('pcs', funcs.CS_ALPHA, maxlen, 100, seed)
     hl = campaign.run_campaign('helper', 1, seed)
-    return report(prop, tier, seed, t0, merge(camp, hl), design,
+    bd = campaign.run_campaign('pcs_boundary', 1, seed)
+    return report(prop, tier, seed, t0, merge(camp, hl, bd), design,
                   extra_cov={'rule': 'all strings over {ESC [ 1 ; ? space m H a} up to length %d under 4 flag combinations; '
-                                     'every cursor/erase/scroll helper with boundary arguments' % maxlen,
+                                     'every cursor/erase/scroll helper with boundary arguments; every code point 0x1a-0x81 (and a few beyond) as body byte, final byte and after ESC' % maxlen,
                              'inputs_enumerated': total, 'exhaustive': True})
 
 
@@ -276,13 +280,32 @@ def check_c15(prop, tier, seed):
     maxlen = 6 if thorough else 4
     camp, total = enum_campaign('aset', funcs.SET_ALPHA, maxlen, 2000 if thorough else 200, seed)
     extra = campaign.run_campaign('aset_extra', 1, seed)
-    hist = campaign.run_campaign('history', 3000 if thorough else 300, seed, profile='C01', nops=8, maxlen=6, more=0.4,
-                                 odd=0.3, epilogue=('render8',))
+    hist = campaign.run_campaign('history', 3000 if thorough else 400, seed, profile='C15', nops=10, maxlen=6, more=0.4,
+                                 odd=0.35, epilogue=('render8',))
     return report(prop, tier, seed, t0, merge(camp, extra, hist), design,
                   extra_cov={'rule': 'all setting texts over {0 1 2 3 5 8 ; space ? : m} up to length %d plus boundary texts and all '
                                      'codes 0..255, each flag read twice and in both orders; renderings (8 flag sets) of values '
                                      'with verbatim and invalid settings for the strip/verbatim/conjunction clauses' % maxlen,
                              'inputs_enumerated': total, 'exhaustive': True})
+
+
+def check_c11(prop, tier, seed):
+    from .drivers import funcs, textfam
+    t0 = time.time()
+    design = design_runs(prop, tier)
+    thorough = tier == 'thorough'
+    cfg = HIST[prop]
+    camp = campaign.run_campaign('history', cfg[tier], seed, profile=prop, nops=cfg['nops_thorough'] if thorough else cfg['nops'],
+                                 alpha=cfg['alpha'], maxlen=12 if thorough else 8)
+    maxlen = 7 if thorough else 5
+    ntexts = funcs.count_words(['a', 'b'], maxlen)
+    fam = campaign.run_campaign('text_family', ntexts * len(textfam.SEPS), seed, per_shard_max=100000)
+    return report(prop, tier, seed, t0, merge(camp, fam), design,
+                  extra_cov={'rule': 'random histories over non-uniformly formatted values (a distinct setting per character) with '
+                                     'split/rsplit/splitlines/partition/strip/removeprefix/replace/expandtabs/case/assign_str; plus '
+                                     'the exhaustive family: every text over {a,b} up to length %d x every separator up to length 2 '
+                                     'x maxsplit/count -1..2 (piece offsets computed by spec/Text.tla and audited against CPython)' % maxlen,
+                             'family_texts': ntexts, 'family_exhaustive': True})
 
 
 def check_c13(prop, tier, seed):
@@ -297,7 +320,7 @@ def check_c13(prop, tier, seed):
 
 
 CHECKS = {p: check_history for p in HIST}
-CHECKS.update({'C13': check_c13, 'C18': check_c18, 'C19': check_c19, 'C15': check_c15})
+CHECKS.update({'C11': check_c11, 'C13': check_c13, 'C18': check_c18, 'C19': check_c19, 'C15': check_c15})
 CHECKS.update({'C01': check_c01, 'C02': check_c02, 'C03': check_c03})
 
 
